@@ -34,6 +34,17 @@ TV      one pipeline per shard, two trace-validation passes around the harness (
                          65536, RDATA 65535).  Types TXT (many strings), TYPE65000 (RFC 3597), DNSKEY, SIG (signer lower-cased, then a long
                          signature).  Variants: orig, order, repeated, owner-case + TTLs, last octet of the large record altered, large record
                          dropped, forge, forge-shuffled.  Finding keys carry record-over-4096-octets / record-over-512-octets.
+          dnssec record  ... RSA KEYS AT THE SIZE LIMITS (shard "6" quick: five keys, one case each; shard "rsa" thorough: ten keys, two cases each;
+                         no bit flips here, the other shards have them): committed 4096-bit and 512-bit keys (harness/cmd/dnssec/testdata; RFC 3110: a modulus
+                         of 64 .. 512 octets) with public exponents of 1, 2, 3 and 4 octets (the same primes, the first odd invertible
+                         exponent of that length), algorithms 5, 8, 10 (no SHA-512 under a 512-bit modulus).  Every other key of the
+                         check is 1024 or 2048 bits with exponent 65537.  Same variants as any case.
+                         REUSED RRSIG VALUES (every ordinary case, kinds in turn): one more Sign of the case's RRset with an RRSIG value
+                         that is not fresh -- it has just signed an RRset with a DEEPER owner (x.Y.<owner>), a SHALLOWER one (the apex),
+                         of another type and TTL, or comes "preset" by hand (owner, class CH, type covered ANY, Labels 255, a stale
+                         signature).  req of the sign event = the value as handed to Sign; SignFills lets nothing of it through but a
+                         non-zero Original TTL (MC_Dnssec: the result is the fresh value's).  Then verified ("reused-<kind>" check).
+                         Finding keys carry :reused-sig-struct.
           Trace_Dnssec   pass 1: Sign must succeed and fill the fields as SignFills says; emits SignedData for every event
           dnssec finish  (1) crypto/rsa|ecdsa|ed25519 verify the REAL signature over the SPEC's octets; (5) forged variants are signed by
                          the standard library over the SPEC's octets; real Verify on every variant -> "verify" events with
@@ -83,6 +94,10 @@ Mutants (checks/mutants/C10; each `VERIF_REPO=/tmp/comp-x bin/check C10 quick` e
   covered-type-unchecked.diff   TypeCovered not compared with the RRset's type -> pass 2 verify-accepts-invalid:forge-type-covered:type
   rrset-class-unchecked.diff    RRset class not compared with the RRSIG's     -> pass 2 verify-accepts-invalid:class-rrsig-and-key:class, ...:forge-class-rrset:class
   key-algorithm-unchecked.diff  RRSIG algorithm not compared with the key's   -> pass 2 verify-accepts-invalid:forge-key-algorithm:algorithm (RSA shards)
+  rsa-modlen-counts-exponent.diff  publicKeyRSA bounds len(exponent)+len(modulus) by 512 (seed C10-19): every 4096-bit DNSKEY refused -> pass 2
+                            verify-rejects-valid:orig:<feature>:rsa-4096-bit-key (and every other accepting variant) on shard "6", all three 4096-bit keys
+  sign-keeps-labels.diff    Sign leaves a non-zero Labels alone, like OrigTtl (seed C10-20) -> pass 1 dnssec/sign-fields:Labels:<feature>:reused-sig-struct,
+                            finish (1) sign-not-over-canonical-octets, pass 2 verify-rejects-valid:reused-* (reused RRSIG values, every case)
 Benign (checks/benign/C10, must exit 0): dedup-first-prechecks-reordered.diff (duplicates dropped through a map before a stable sort;
 the key pre-checks in another order).
 Findings of this check on the originally pinned tree, since repaired in /repo: NXT next name not lower-cased (fb0255f); Sign took every
@@ -96,6 +111,10 @@ from checks.c17 import safe_scratch, keys_of
 
 PAIRS = [["RSASHA256", "ED25519"], ["RSASHA1", "ECDSAP256SHA256"], ["RSASHA512", "ECDSAP384SHA384"]]
 ALL = ["RSASHA1", "RSASHA256", "RSASHA512", "ECDSAP256SHA256", "ECDSAP384SHA384", "ED25519", "RSASHA256-2048"]
+# committed RSA keys at the size limits (harness/cmd/dnssec/testdata), <algorithm>-<modulus bits>[e<octets of the public exponent>]
+BOUNDARY = ["RSASHA256-4096", "RSASHA1-4096e1", "RSASHA512-4096e4", "RSASHA256-512", "RSASHA1-512e1",
+            "RSASHA256-4096e2", "RSASHA512-4096e1", "RSASHA1-4096e4", "RSASHA256-512e4", "RSASHA1-512e2"]
+BOUNDARY_QUICK = BOUNDARY[:5]
 
 
 def absorb_pass(ctx, tr, events, shard):
@@ -164,11 +183,14 @@ def run(ctx):
         jobs += [lambda: pipeline(ctx, binp, lay, "4", ctx.seed * 1000 + 4, 4, ["ECDSAP256SHA256", "ECDSAP384SHA384"], 0)]
         # the large-record universe: four RRsets with a record of 4097, 4096 | 4095, one of 5003..16385 and one of 511..2049 octets
         jobs += [lambda: pipeline(ctx, binp, lay, "5", ctx.seed * 1000 + 5, "0+4", algs, 0)]
-        vp.parallel(jobs, maxpar=7)
+        # RSA keys at the size limits of RFC 3110 (4096- and 512-bit moduli) with public exponents of 1, 2, 3 and 4 octets
+        jobs += [lambda: pipeline(ctx, binp, lay, "6", ctx.seed * 1000 + 6, len(BOUNDARY_QUICK), BOUNDARY_QUICK, 0)]
+        vp.parallel(jobs, maxpar=8)
     else:
         jobs += [lambda k=k: pipeline(ctx, binp, lay, str(k), ctx.seed * 1000 + k, 56, ALL, 3) for k in range(12)]
         # large records: every length of the list (bigThorough: around 512 .. 65536 octets, RDATA of 65535), 7 per shard
         jobs += [lambda k=k: pipeline(ctx, binp, lay, "big%d" % k, ctx.seed * 1000 + 100 + 7 * k, "0+7", ALL, 0) for k in range(3)]
+        jobs += [lambda: pipeline(ctx, binp, lay, "rsa", ctx.seed * 1000 + 200, 2 * len(BOUNDARY), BOUNDARY, 0)]
         vp.parallel(jobs, maxpar=6)
     ctx.assumptions += [
         "the signature primitives and hash functions are Go's standard library, applied to the octets the specification fixes; "
